@@ -79,6 +79,18 @@ def extra(ctx, sc, r):
                     "the run ends by the ping/pong timeout", r["trace"][-300:], size=n)
 
 
+    # the return value in runs the one-connection Spec does not judge (reconnecting, per-run settings): True exactly when an
+    # error of the run was reported to on_error during THIS run
+    if sc.get("rc") and sc.get("cbs", appsim.ALL) == appsim.ALL and not sc.get("plan"):
+        for seg in _run_segments(r["trace"]):
+            ret = next((e for e in seg if e.startswith("ret:")), None)
+            if ret is None:
+                continue
+            reported = any(e.startswith("cb:on_error:e") and not e.startswith("cb:on_error:eUSER") for e in seg)
+            if (ret == "ret:1") != reported:
+                ctx.violate("return-value", ("false-despite-error-report" if reported else "true-without-error-report") + "@reconnecting-run", sc,
+                            f"run_forever returns {reported}", f"{ret}; trace …{r['trace'][-260:]}", size=n)
+                break
     if sc.get("kind") == "global-default" and (r["trace"].count(":dial:") > 1 or ":sleep:" in r["trace"] or r["trace"].endswith(":blocked")):
         ctx.violate("terminates", "reconnects-although-reconnect-0-was-passed", sc, "an explicit reconnect=0 ends the run at the first loss",
                     r["trace"][-300:], size=n)
@@ -211,6 +223,31 @@ def reconnect_scenarios(ctx):
             sc.update(iv=4 * TPS, to=TPS, kind="keepalive", tag="reconnect+keepalive:" + "-".join(seq))
             scs.append(sc)
     return scs
+
+
+def nested_scenarios(ctx):
+    """run_forever() called again on the same object from INSIDE on_close (restart-on-close, a common idiom): the inner run works
+    and returns, on_close fires for it too, then the outer call returns. Real runs + oracle."""
+    scs = []
+    inner = [["E", [[80, 0, "t", "696e"], [40, 0, "c", "03e9736563"]]]]
+    for end in ([[50, 0, "c", "03e8"]], [[50, 0, "e", ""]], [[50, 0, "t", "6869"], [30, 0, "c", ""]]):
+        for kw in ({}, {"iv": 300, "to": 200}):
+            sc = {"cbs": appsim.ALL, "runs": [[["E", end]]], "nested_run": inner, "plan": {"on_close": "n"}, "horizon": 40 * TPS,
+                  "tag": "nested-run-from-on_close", "kind": "nested"}
+            sc.update(kw)
+            scs.append(sc)
+    return scs
+
+
+def nested_extra(ctx, sc, r):
+    n = appcheck.size_of(sc)
+    tr = r["trace"]
+    rets = tr.count(":ret:")
+    closes = tr.count(":cb:on_close:")
+    if rets != 2 or closes != 2 or ":cb:on_close:i1001" not in tr:
+        ctx.violate("rerun", "run-restarted-from-on_close-does-not-complete", sc,
+                    "inner run: on_open, message, on_close(1001, 'sec'), returns; then the outer call returns",
+                    f"{rets} returns, {closes} on_close calls; outcome={r['outcome']} abort={r['abort']}; trace …{tr[-300:]}", size=n)
 
 
 def skip_scenarios(ctx):
@@ -361,6 +398,7 @@ def run(ctx):
     # reconnecting runs: model correspondence + the resource oracles of `extra` ("C14/resources" matches no Spec tag)
     appcheck.evaluate(ctx, "C14/resources", reconnect_scenarios(ctx), cls_of=cls_of, extra_check=extra)
     appcheck.evaluate(ctx, "C14/rerun-settings", rerun_settings_scenarios(ctx), cls_of=cls_of, extra_check=rerun_settings_extra)
+    appcheck.evaluate(ctx, "C14/nested", nested_scenarios(ctx), cls_of=cls_of, extra_check=nested_extra, model=False)
     appcheck.evaluate(ctx, "C14/skip", skip_scenarios(ctx), cls_of=cls_of, extra_check=skip_extra, model=False)
     appcheck.evaluate(ctx, "C14", closer_scenarios(ctx), cls_of=cls_of, extra_check=closer_extra, model=False)
 
